@@ -248,7 +248,15 @@ class GhostFS:
         self.K0 = z3.Function("fs0_kind", STR, INT)
         self.L0 = z3.Function("fs0_loadable", STR, BOOL)
         self.C0 = z3.Function("fs0_complete", STR, BOOL)
+        # which file a name resolves to (following symbolic links): two different names with the same value are hard links of
+        # one file or a symlink and its destination.  Only meaningful for names of kind FILE.
+        self.INO0 = z3.Function("fs0_inode", STR, INT)
+        # a name can also be a DANGLING symbolic link: it resolves to nothing (kind ABSENT, os.path.exists is False) but the
+        # directory entry exists (lexists) and creating a file "at" the name creates it at the link's destination
+        self.DANG0 = z3.Function("fs0_dangling_link", STR, BOOL)
+        self.DEST0 = z3.Function("fs0_link_destination", STR, STR)
         self.log = []
+        self.through = set()
 
     def well_formed_old(self):
         """Facts about every old node: kinds are 0/1/2, only existing nodes load."""
@@ -264,22 +272,53 @@ class GhostFS:
             if not _subterm(p, t):
                 ctx.assume(p != t)
         ctx.assume(z3.And(self.K0(p) >= 0, self.K0(p) <= 2, z3.Implies(self.L0(p), self.K0(p) != ABSENT)))
+        d = self.DEST0(p)
+        ctx.assume(z3.Implies(self.DANG0(p), z3.And(self.K0(p) == ABSENT, d != p, self.K0(d) == ABSENT, z3.Not(self.DANG0(d)), z3.Not(self.L0(d)))))
         return p
 
-    def write(self, p, node):
+    def dangling(self, q):
+        """q is (still) a dangling symbolic link: it was one before the call and its directory entry has not been replaced."""
+        q = sterm(q)
+        return z3.And(self.untouched(q), self.DANG0(q))
+
+    def write(self, p, node, through=False):
+        """through=False: the directory entry p now holds `node` (created / replaced / removed).
+        through=True : the EXISTING file p resolves to was written in place (open(p, 'w') on an existing name follows
+        symbolic links and keeps the inode): every other name that resolves to the same file - a hard link, a symlink to
+        it, the file a symlink p points to - shows the new content as well."""
+        if through:
+            self.through.add(len(self.log))
         self.log.append((sterm(p), node))
         self.w.effects += 1
 
+    def matches(self, q):
+        """m_i(q): does the i-th write define what the name q shows (at the time it is made)?"""
+        q = sterm(q)
+        ms = []
+        for i, (p, node) in enumerate(self.log):
+            m = q == p
+            if i in self.through:
+                shares = z3.And(q != p, self.K0(q) == FILE, self.INO0(q) == self.INO0(p))
+                # ... unless q's own directory entry was already replaced / removed by an earlier write
+                m = z3.Or(m, z3.And(shares, *[z3.Not(x) for x in ms]))
+            ms.append(m)
+        return ms
+
     def view(self, q):
         """[(guard, node | None)]: mutually exclusive, exhaustive; None = the old state of q."""
-        q = sterm(q)
+        ms = self.matches(q)
         out, later = [], []
-        for p, node in reversed(self.log):
-            g = z3.And(q == p, *[q != x for x in later])
-            out.append((g, node))
-            later.append(p)
-        out.append((z3.And(*[q != x for x in later]) if later else z3.BoolVal(True), None))
+        for i in range(len(self.log) - 1, -1, -1):
+            out.append((z3.And(ms[i], *[z3.Not(x) for x in later]), self.log[i][1]))
+            later.append(ms[i])
+        out.append((z3.And(*[z3.Not(x) for x in later]) if later else z3.BoolVal(True), None))
         return out
+
+    def old_file_written_in_place(self, q):
+        """Some write went INTO the file the name q resolved to before the call (instead of replacing q's directory entry)."""
+        q = sterm(q)
+        alts = [z3.Or(q == self.log[i][0], z3.And(self.K0(q) == FILE, self.INO0(q) == self.INO0(self.log[i][0]))) for i in sorted(self.through)]
+        return z3.Or(*alts) if alts else z3.BoolVal(False)
 
     def fold(self, q, f, old):
         """ite-chain over the view of q; f(node) for written nodes, `old` for the untouched case."""
@@ -759,8 +798,13 @@ def install(reg):
         p = fs.mention(p)
         return Sym(fs.kind(p) == FILE)
 
-    M[os.path.exists] = m_exists
-    M[os.path.lexists] = m_exists
+    def m_lexists(interp, p):
+        fs = _fs(interp)
+        p = fs.mention(p)
+        return Sym(z3.Or(fs.kind(p) != ABSENT, fs.dangling(p)))
+
+    M[os.path.exists] = m_exists      # follows symbolic links: False for a dangling link
+    M[os.path.lexists] = m_lexists    # the directory entry exists
     M[os.path.isdir] = m_isdir
     M[os.path.isfile] = m_isfile
 
@@ -806,6 +850,9 @@ def install(reg):
         may_fault(interp.ctx, "os.remove")
         k = _kind_fork(interp, p)
         if k == ABSENT:
+            if interp.ctx.branch(fs.dangling(p)):
+                fs.write(p, Absent())  # unlinks the (dangling) link itself
+                return
             raise RaiseSig(FileNotFoundError("os.remove: no such file"))
         if k == DIR:
             raise RaiseSig(IsADirectoryError("os.remove: is a directory"))
@@ -840,6 +887,8 @@ def install(reg):
         if k == FILE or (k == DIR and not exist_ok):
             raise RaiseSig(FileExistsError("makedirs: file exists"))
         if k == ABSENT:
+            if interp.ctx.branch(fs.dangling(p)):
+                raise RaiseSig(FileExistsError("makedirs: the name exists (dangling symbolic link)"))
             fs.write(p, DirNode(None))
 
     M[os.makedirs] = m_makedirs
@@ -889,7 +938,7 @@ def install(reg):
         fs = w.fs
         # freshness: did not exist, is none of the paths named so far (later paths: GhostFS.mention)
         ctx.assume(fs.kind(t) == ABSENT)
-        ctx.assume(fs.K0(t) == ABSENT)
+        ctx.assume(z3.And(fs.K0(t) == ABSENT, z3.Not(fs.DANG0(t))))
         for p, _ in fs.log:
             ctx.assume(p != t)
         for p in w.ctx.ghost.get("c08.named_paths", []):
@@ -933,7 +982,22 @@ def install(reg):
         if k == FILE and mode == "x":
             raise RaiseSig(FileExistsError("ZipFile mode x: file exists"))
         zf = GhostZip(w, p, mode)
-        fs.write(p, ZipNode(zf))  # truncated / created now; unreadable until closed
+        in_place = False
+        if k == ABSENT and interp.ctx.branch(fs.dangling(p)):
+            if mode == "x":
+                raise RaiseSig(FileExistsError("ZipFile mode x: file exists"))
+            # open(p, 'wb') through a dangling symbolic link creates the file at the link's DESTINATION - another path
+            dest = fs.mention(fs.DEST0(p))
+            node = ZipNode(zf)
+            fs.write(dest, node)
+            fs.write(p, node)
+            w.zips.append(zf)
+            return zf
+        if k == FILE:
+            # open(p, 'wb') on an existing name truncates the file the name resolves to; if that is still the file from before
+            # the call, every other name of that file sees the archive
+            in_place = fs.pick(p) is None
+        fs.write(p, ZipNode(zf), through=in_place)  # truncated / created now; unreadable until closed
         w.zips.append(zf)
         return zf
 
